@@ -9,12 +9,16 @@ Lemma upd_same {A} (t : nat -> A) u : upd t u (t u) = t.
 Proof. apply functional_extensionality; intro w. unfold upd.
   destruct (Nat.eqb_spec w u) as [->|]; reflexivity. Qed.
 
+Lemma upd_const {A} (v : A) u : upd (fun _ : nat => v) u v = (fun _ => v).
+Proof. apply functional_extensionality; intro w. unfold upd. destruct (Nat.eqb w u); reflexivity. Qed.
+
 Section LS.
 Variable eps : R.
 Variable fixed : nat -> bool.
 Hypothesis eps_nonneg : 0 <= eps.
 
 Notation cav0 := (fun _ : nat => (zero RNum, zero RNum)).
+Notation st0R := (st0 RNum).
 Notation constrainR := (constrain RNum eps fixed).
 Notation forcedR := (forced R Rleb (bumpN RNum eps)).
 
@@ -22,18 +26,17 @@ Definition ordered (es : list (nat * nat)) (t : nat -> R) :=
   forall p c, In (p, c) es -> t c <= t p.
 
 Lemma ls_edge_id t e p c : t c <= t p ->
-  ls_edge RNum fixed (t, cav0) (e, (p, c)) = Some (t, cav0).
-Proof. intro H. unfold ls_edge. cbn [fst snd RNum sub add zero ltb T].
+  ls_edge RNum fixed (st0R t) (e, (p, c)) = Some (st0R t).
+Proof. intro H. unfold ls_edge, st0. cbn [fst snd RNum sub add zero ltb T].
   replace (t c - 0) with (t c) by lra. rewrite upd_same.
   replace (t p - 0) with (t p) by lra. rewrite upd_same.
   assert (E : Rltb 0 (t c - t p) = false) by (apply Rltb_false; lra). rewrite E.
   replace (t c + 0) with (t c) by lra. rewrite upd_same.
   replace (t p + 0) with (t p) by lra. rewrite upd_same.
-  f_equal. f_equal. apply functional_extensionality; intro w. unfold upd.
-  destruct (Nat.eqb w e); reflexivity. Qed.
+  unfold st0. cbn [zero RNum]. rewrite (upd_const (0, 0) e). reflexivity. Qed.
 
 Lemma ls_sweep_id t : forall ies, (forall e p c, In (e, (p, c)) ies -> t c <= t p) ->
-  ls_sweep RNum fixed (t, cav0) ies = Some (t, cav0).
+  ls_sweep RNum fixed (st0R t) ies = Some (st0R t).
 Proof. induction ies as [|[e [p c]] r IH]; intro H; [reflexivity|]. cbn [ls_sweep].
   rewrite ls_edge_id by (apply (H e); left; reflexivity).
   apply IH. intros e' p' c' Hin. apply (H e'). right; exact Hin. Qed.
@@ -42,10 +45,10 @@ Lemma in_index {A} (l : list A) e x : In (e, x) (index l) -> In x l.
 Proof. unfold index. intro H. apply in_combine_r in H. exact H. Qed.
 
 Lemma ls_loop_id es t : ordered es t -> forall k,
-  ls_loop RNum eps fixed k es (t, cav0) = Some (inl t) \/
-  ls_loop RNum eps fixed k es (t, cav0) = Some (inr (t, cav0)).
-Proof. intros Ho k. induction k as [|k IH]; [right; reflexivity|]. cbn [ls_loop fst].
-  destruct (all_strict RNum eps es t); [left; reflexivity|].
+  ls_loop RNum eps fixed k es (st0R t) = Some (inl t) \/
+  ls_loop RNum eps fixed k es (st0R t) = Some (inr (st0R t)).
+Proof. intros Ho k. induction k as [|k IH]; [right; reflexivity|]. cbn [ls_loop].
+  change (fst (st0R t)) with t. destruct (all_strict RNum eps es t); [left; reflexivity|].
   rewrite ls_sweep_id; [exact IH|]. intros e p c Hin. apply Ho. eapply in_index; exact Hin. Qed.
 
 Lemma ls_loop_early k es : forall st t',
@@ -111,7 +114,7 @@ Proof. intro H. unfold constrain.
     eps, or the forced pass applied to something *)
 Lemma constrain_result k es t t1 : constrainR k es t = Some t1 ->
   all_strict RNum eps es t1 = true \/ exists s, t1 = forcedR es s.
-Proof. unfold constrain. destruct (ls_loop RNum eps fixed k es (t, cav0)) as [[t'|st]|] eqn:E; intro H; inversion H; subst.
+Proof. unfold constrain. destruct (ls_loop RNum eps fixed k es (st0R t)) as [[t'|st]|] eqn:E; intro H; inversion H; subst.
   - left. eapply ls_loop_early; exact E.
   - right. eexists; reflexivity. Qed.
 
@@ -139,3 +142,47 @@ Proof. intros Hcf H1. destruct (constrain_result k es t t1 H1) as [Hs|[s ->]].
 
 (** *** a fixed node is never moved by the least-squares phase *)
 End LS.
+
+(** ** Statements in the exact form used by props/C27.v *)
+Lemma C27_lfp (eps : R) fixed es (t : nat -> R) :
+  children_first es ->
+  exists t', constrain RNum eps fixed 0 es t = Some t' /\
+    (forall u, t u <= t' u) /\
+    satR eps es t' /\
+    (forall u, t' u = t u \/ exists c, In (u, c) es /\ t' u = t' c + eps) /\
+    (forall s, (forall u, t u <= s u) -> satR eps es s -> forall u, t' u <= s u).
+Proof. intro Hcf. eexists. split; [reflexivity|]. cbn [fst st0]. repeat split.
+  - intro u. apply forcedR_ge.
+  - apply forcedR_sat; exact Hcf.
+  - intro u. apply forcedR_tight; exact Hcf.
+  - intros s H1 H2. apply forcedR_least; assumption. Qed.
+
+Lemma C27_forced_abstract (T : Type) (le : T -> T -> Prop) (leb : T -> T -> bool) :
+  (forall x y, leb x y = true <-> le x y) -> (forall x, le x x) ->
+  (forall x y z, le x y -> le y z -> le x z) -> (forall x y, le x y \/ le y x) ->
+  forall bump : T -> T, (forall x y, le x y -> le (bump x) (bump y)) ->
+  forall es t, children_first es ->
+    (forall u, le (t u) (forced T leb bump es t u)) /\
+    (forall p c, In (p, c) es -> le (bump (forced T leb bump es t c)) (forced T leb bump es t p)) /\
+    (forall u, forced T leb bump es t u = t u \/
+               exists c, In (u, c) es /\ forced T leb bump es t u = bump (forced T leb bump es t c)) /\
+    (forall s, (forall u, le (t u) (s u)) -> (forall p c, In (p, c) es -> le (bump (s c)) (s p)) ->
+               forall u, le (forced T leb bump es t u) (s u)).
+Proof. intros Hs Hr Ht Htot bump Hm es t Hcf. repeat split.
+  - intro u. apply (forced_ge T le leb Hs Hr Ht bump).
+  - intros p c Hin. exact (forced_sat T le leb Hs Hr Ht Htot bump es t Hcf p c Hin).
+  - intro u. apply forced_tight; exact Hcf.
+  - intros s H1 H2. exact (forced_least T le leb Ht bump Hm es t s H1 H2). Qed.
+
+Lemma C27_strict (eps : R) fixed k es (t : nat -> R) :
+  0 <= eps ->
+  (forall p c, In (p, c) es -> t c + eps < t p) ->
+  exists t', constrain RNum eps fixed k es t = Some t' /\ forall u, t' u = t u.
+Proof. intros He H. apply constrain_strict_unchanged; assumption. Qed.
+
+Lemma C27_idem (eps : R) fixed k es (t t1 : nat -> R) :
+  0 <= eps -> children_first es ->
+  constrain RNum eps fixed k es t = Some t1 ->
+  exists t2, constrain RNum eps fixed k es t1 = Some t2 /\ forall u, t2 u = t1 u.
+Proof. intros He Hcf H. eapply constrain_idempotent; eassumption. Qed.
+
